@@ -47,6 +47,7 @@ void harness(void) {
   p_socket_set_blocking(C, blocking); p_socket_set_timeout(C, T);
   long long clock0 = vs.clock;
   vs_begin_call(FAULTS, VS_M_EINTR);
+  vs.nb_call = !blocking;
   pboolean ok = p_socket_connect(C, refused ? other : laddr, &err);
   _Bool established = 0;
   if (ok) {
@@ -84,6 +85,7 @@ void harness(void) {
     _Bool lblk = ND_BOOL();
     p_socket_set_blocking(L, lblk);
     vs_begin_call(FAULTS, VS_M_EINTR | VS_M_EAGAIN);
+    vs.nb_call = !lblk;
     S = p_socket_accept(L, &err);
     if (S == NULL) {
       VASSERT(!lblk, "blocking accept with a pending connection returns it");
